@@ -1029,7 +1029,7 @@ def substitute_named_conditions(g):
     and locals / parameters that cannot change between the initialisation and the test."""
     decls = {}
     for n in g.nodes.values():
-        if n.get('k') == 'decl' and not n.get('inlined_return'):
+        if n.get('k') == 'decl':      # (the single `return cond;` of an inlined predicate helper is such an initialisation too)
             for v in n['vars']:
                 decls.setdefault(v['d'], []).append((n['id'], v.get('init') if _is_id(v.get('init')) else None))
     mods = {}
